@@ -178,6 +178,11 @@ func run(c *core.Ctx) {
 			each("models=1/value-ladder", []ModelSpec{{Mesh: fmt.Sprintf("W%d", r), Mat: "M", TRS: "T"}})
 		}
 	}
+	// a float3 attribute with NaN components (the normal of a degenerate triangle), alone and followed by
+	// an ordinary model whose views come after it
+	for _, ms := range [][]ModelSpec{{{Mesh: "Qn", Mat: "-", TRS: "-"}}, {{Mesh: "Qn", Mat: "M", TRS: "T"}, {Mesh: "A", Mat: "-", TRS: "-"}}, {{Mesh: "O", Mat: "-", TRS: "-"}, {Mesh: "Qn", Mat: "-", TRS: "-", Inst: 1}}} {
+		each("models/nan-normal", ms)
+	}
 	for _, glb := range conts {
 		for _, seq := range core.SaveSequences(len(saveScenes)) {
 			if c.Next() {
